@@ -3429,6 +3429,15 @@ impl KotoVm {
                 .splice(unpack_index..unpack_index + 1, unpacked_values.drain(..));
         }
 
+        // Unpacking empty arguments shrinks the register stack,
+        // so ensure that the calling frame still has the required number of registers.
+        if !self.call_stack.is_empty() {
+            let min_frame_registers = self.register_index(self.frame().required_registers);
+            if self.registers.len() < min_frame_registers {
+                self.registers.resize(min_frame_registers, KValue::Null);
+            }
+        }
+
         Ok(())
     }
 
